@@ -11,6 +11,7 @@ from collections import Counter
 
 from codec import *  # noqa
 import reccorr
+import srccover
 
 PID = 'C01'
 
@@ -47,6 +48,10 @@ def run(tier, seed, t0):
     tmap = dict(catmod.catalogue_types())
     failures = []
     stats = {'evaluations': 0, 'configs': list(exes), 'result_classes': {}, 'samples': []}
+    # the implementors of BorshSerialize / BorshDeserialize as the compiler lists them vs the model's universe
+    cst, cdis = srccover.stage(('BorshSerialize', 'BorshDeserialize'), catmod.catalogue_types(), rust)
+    stats.update(cst)
+    disagreements += cdis
     distinct = set()
     classes = Counter()
     rng = random.Random(seed)
